@@ -91,15 +91,31 @@ pub fn absorb(rep: &mut Report, progs: &[Program], cfg: &Cfg, fr: FamRun) {
 		rep.sample(json!({"family": fr.name, "program": progs[*i].describe(), "one_complete_schedule": s.iter().map(|(t, _)| format!("T{}", t)).collect::<Vec<_>>().join(" ")}));
 	}
 	for (i, f) in fr.found {
+		let history = if progs[i].menu.is_empty() {
+			String::new()
+		} else {
+			format!(" history: {}", f.schedule.iter().map(|(t, a)| format!("T{}:{}", t, describe_act(&progs[i], *t as usize, *a))).collect::<Vec<_>>().join(", "))
+		};
 		rep.violation(Viol {
 			prop: f.violation.prop.to_string(),
 			key: f.violation.key.clone(),
-			detail: format!("{} -- program: {}", f.violation.detail, progs[i].describe()),
+			detail: format!("{} -- program: {}{}", f.violation.detail, progs[i].describe(), history),
 			replay: json!({"kind": "concurrent", "program": progs[i], "cfg": cfg, "schedule": f.schedule}),
 		});
 	}
 	for m in fr.machinery {
 		rep.machinery.push(m);
+	}
+}
+
+pub fn describe_act(p: &Program, t: usize, a: u16) -> String {
+	use crate::menu::MAct;
+	match p.menu.get(t).and_then(|m| m.actions.get(a as usize)) {
+		Some(act) => match act {
+			MAct::Lock { t, .. } | MAct::Try { t, .. } | MAct::Scoped { t, .. } | MAct::IsPoisoned { t } | MAct::ClearPoison { t } => format!("{}.{}", p.specs[*t].describe(), act.kind()),
+			_ => act.kind().to_string(),
+		},
+		None => "step".into(),
 	}
 }
 
